@@ -9,9 +9,9 @@ namespace ElaVerif.WireSchemas
 open ElaVerif.Wire ElaVerif.Tx
 
 /-- `K` of the transaction / block reader: allocation per consumed byte. -/
-def txDens : Nat := 513
-/-- `C`: the largest var-bytes limit (`MaxVarStringLength`, 16 MiB). -/
-def txSlack : Nat := 16777216
+def txDens : Nat := 530
+/-- `C`: one buffer of the largest var-bytes limit (`MaxVarStringLength`, 16 MiB, plus size-class rounding). -/
+def txSlack : Nat := 20971536
 
 /-- the property of a schema that the table lemmas establish -/
 def Nice (ty : Ty) : Prop :=
@@ -109,13 +109,13 @@ theorem body_nice {ty ver : Nat} {fs : List Ty} (h : bodyTy? ty ver = some fs) :
       have x3 : 1 ≤ minSize attributeTy := by decide
       have x4 : 1 ≤ minSize input := by decide
       simp [txBody, boundedFields, bounded, boundedCases, b0, b1, b2, b3, b4, bo, x1, x2, x3, x4, m1]
-    · have x1 : dens attributeTy = 1 := by decide
+    · have x1 : dens attributeTy = 18 := by decide
       have x2 : dens input = 0 := by decide
-      have x3 : dens (output (decide (txVersion09 ≤ ver))) ≤ 257 := by
+      have x3 : dens (output (decide (txVersion09 ≤ ver))) ≤ 274 := by
         cases decide (txVersion09 ≤ ver) <;> decide
       simp only [txBody, densFields, dens, densCases, x1, x2]
       omega
-    · have x1 : slack attributeTy = 16777216 := by decide
+    · have x1 : slack attributeTy = 20971536 := by decide
       have x2 : slack input = 0 := by decide
       simp only [txBody, slackFields, slack, slackCases, Option.getD_none, x1, x2]
       omega
